@@ -21,7 +21,7 @@ type genOpts struct {
 func randomWorkload(en *Env, cfg h.Cfg, nkeys int, o genOpts, reopenCfg func() h.Cfg) {
 	dir := en.FreshDir()
 	defer en.Drop(dir)
-	u := h.SimpleKeys(nkeys, 5+en.R.Intn(12))
+	u := h.PickKeys(en.R, nkeys, 5+en.R.Intn(12))
 	vs := h.NewValues()
 	e := h.NewEng(dir, en.Work+"/scratch", cfg, u, vs, en.T)
 	en.T.Emit(h.Ev{"ev": "reset", "n": nkeys, "seed": en.Seed, "prof": o.prof})
